@@ -274,8 +274,58 @@ func Catalogue() []CatEntry {
 			return flat(s.Parse(data, &d, eo...))
 		}})
 	}
-	// struct, pointer, front ends
+	// every exported Validate entry point as the root of an execution (each has its own prologue that
+	// picks the global formatter), with an issue of its own and, for the composites, of a child
 	type T struct{ A string }
+	vroot := func(name string, run func(eo []z.ExecOption, o []z.TestOption) []*z.ZogIssue) {
+		es = append(es, CatEntry{Name: "validate_root." + name, Run: run})
+	}
+	vroot("string", func(eo []z.ExecOption, o []z.TestOption) []*z.ZogIssue {
+		v := "ab"
+		return z.String().Min(5, o...).Validate(&v, eo...)
+	})
+	vroot("int", func(eo []z.ExecOption, o []z.TestOption) []*z.ZogIssue {
+		v := 3
+		return z.Int().GT(5, o...).Validate(&v, eo...)
+	})
+	vroot("float64", func(eo []z.ExecOption, o []z.TestOption) []*z.ZogIssue {
+		v := 3.5
+		return z.Float64().LT(1, o...).Validate(&v, eo...)
+	})
+	vroot("bool", func(eo []z.ExecOption, o []z.TestOption) []*z.ZogIssue {
+		v := true
+		return z.Bool().TestFunc(func(any, z.Ctx) bool { return false }, o...).Validate(&v, eo...)
+	})
+	vroot("time", func(eo []z.ExecOption, o []z.TestOption) []*z.ZogIssue {
+		v := time.Date(2024, 1, 1, 0, 0, 0, 0, time.UTC)
+		return z.Time().After(v.Add(time.Hour), o...).Validate(&v, eo...)
+	})
+	vroot("slice", func(eo []z.ExecOption, o []z.TestOption) []*z.ZogIssue {
+		v := []string{"a"}
+		return flat(z.Slice(z.String()).Min(3, o...).Validate(&v, eo...))
+	})
+	vroot("slice.element", func(eo []z.ExecOption, o []z.TestOption) []*z.ZogIssue {
+		v := []string{"ab"}
+		return flat(z.Slice(z.String().Min(5, o...)).Validate(&v, eo...))
+	})
+	vroot("struct", func(eo []z.ExecOption, o []z.TestOption) []*z.ZogIssue {
+		v := T{A: "x"}
+		return flat(z.Struct(z.Schema{"a": z.String()}).TestFunc(func(any, z.Ctx) bool { return false }, o...).Validate(&v, eo...))
+	})
+	vroot("struct.field", func(eo []z.ExecOption, o []z.TestOption) []*z.ZogIssue {
+		v := T{A: "ab"}
+		return flat(z.Struct(z.Schema{"a": z.String().Min(5, o...)}).Validate(&v, eo...))
+	})
+	vroot("ptr", func(eo []z.ExecOption, o []z.TestOption) []*z.ZogIssue {
+		x := "ab"
+		v := &x
+		return flat(z.Ptr(z.String().Min(5, o...)).Validate(&v, eo...))
+	})
+	vroot("ptr.not_nil", func(eo []z.ExecOption, o []z.TestOption) []*z.ZogIssue {
+		var v *string
+		return flat(z.Ptr(z.String()).NotNil(o...).Validate(&v, eo...))
+	})
+	// struct, pointer, front ends
 	es = append(es, CatEntry{Name: "struct.coerce", NoTestOpts: true, Run: func(eo []z.ExecOption, o []z.TestOption) []*z.ZogIssue {
 		var d T
 		return flat(z.Struct(z.Schema{"a": z.String()}).Parse("not a map", &d, eo...))
